@@ -6,9 +6,12 @@ are compared."""
 
 # ---- projections: (impl_obs, model_obs) -> (a, b) compared for equality ----
 def proj_cors(i, m):
-    # impl: (acl-headers invoked twin) ; model: (headers pass)
-    # all requests of this domain are routable, so the handler runs iff the filter passes on
-    return [i[0], i[1]], [m[0], m[1]]
+    # impl: ((acl-headers invoked twin) ...) ; model: ((headers invoked) ...), one per request of the sequence
+    return [[x[0], x[1]] for x in i], [[y[0], y[1]] for y in m]
+
+
+def proj_allow(i, m):
+    return i, m
 
 
 def proj_route_all(i, m):
@@ -48,6 +51,37 @@ TB_GO_STDLIB_CORS = ['strings.ToLower is an oracle (tabulated per case by callin
                      'net/http Header canonicalisation and httptest.ResponseRecorder']
 
 PROPS = {
+    'C09': dict(
+        domains=[dict(name='cors', quick=24000, thorough=400000)],
+        verdicts=['c09_*'],
+        project={'cors': proj_cors},
+        prop_files=['props/C09.v'],
+        trivial_classes=('no-origin', 'not-allowed'),
+        rule='sequences of 1-3 requests on ONE filter value installed on a container built from a generated route table '
+             '(literal / variable segments, nested roots, both routers): OPTIONS with/without Access-Control-Request-Method, '
+             'requested header lists in any case / spacing, configured or empty (= computed from the container) allowed '
+             'methods; distinct = distinct case text; non-trivial = last request comes from an allowed origin',
+        trusted_base=TB_GO_STDLIB_CORS + ['regexp as an oracle for computeAllowedMethods'],
+        assumptions=['AllowedDomainFunc is a pure function of its argument'],
+        explanation='Theorem Props.C09 on the Coq model of cors_filter.go + computeAllowedMethods; sequences of preflights to '
+                    'different URLs on one filter value compared with the model request by request.',
+    ),
+    'C17': dict(
+        domains=[dict(name='allow', quick=16000, thorough=300000)],
+        verdicts=['c17_*'],
+        project={'allow': proj_allow},
+        prop_files=['props/C17.v'],
+        trivial_classes=('404',),
+        rule='tables of the common fragment (literal and plain-variable segments, nested literal roots, no conditions), both '
+             'routers; per case one URL probed with every method of the universe (method pool + table methods) on a plain '
+             'container, plus an OPTIONS request on a twin with the OPTIONS filter; distinct = distinct case text; '
+             'non-trivial = at least one method is routable at the URL',
+        trusted_base=TB_ROUTING,
+        assumptions=[],
+        explanation='Theorems Props.C17_allow405 / C17_options_filter / C17_options_partial and the refutation C17_refuted on '
+                    'the Coq model; Allow / Access-Control-Allow-Methods of the implementation compared with the statuses of '
+                    'per-method probes of the implementation itself.',
+    ),
     'C14': dict(
         domains=[dict(name='slash', quick=24000, thorough=600000)],
         verdicts=['c14_*'],
